@@ -12,10 +12,11 @@ import (
 )
 
 type Clause struct {
-	Text  string
-	Expr  *CExpr
-	Label string
-	Src   string // file:line
+	Assumed bool // postcondition used by callers but not checked against the body (listed as an assumption)
+	Text    string
+	Expr    *CExpr
+	Label   string
+	Src     string // file:line
 }
 
 type Contract struct {
@@ -61,7 +62,18 @@ type Axiom struct {
 	Src  string
 }
 
+// MapInv is an invariant on every value stored in any map of the given type
+// (checked at each map update, assumed at each lookup / iteration step).
+type MapInv struct {
+	TypeText string
+	Pkg      string
+	Expr     *CExpr
+	Text     string
+	Src      string
+}
+
 type Registry struct {
+	MapInvs   []*MapInv
 	Contracts map[string]*Contract
 	Specs     map[string]*SpecFn // by name (unqualified, must be unique) and pkg#name
 	Ghosts    map[string]*GhostDecl
@@ -74,9 +86,9 @@ func newRegistry() *Registry {
 }
 
 var stmtKeywords = map[string]bool{
-	"package": true, "func": true, "requires": true, "ensures": true, "modifies": true, "loop": true,
+	"package": true, "func": true, "requires": true, "ensures": true, "assume_ensures": true, "modifies": true, "loop": true,
 	"invariant": true, "option": true, "trusted": true, "pure": true, "spec": true, "ufunc": true,
-	"axiom": true, "ghost": true, "decreases": true, "opaque": true,
+	"axiom": true, "ghost": true, "decreases": true, "opaque": true, "mapvalues": true,
 }
 
 type rawStmt struct {
@@ -152,7 +164,7 @@ func (r *Registry) loadContractFile(path string, pkgPath string) error {
 			r.Contracts[key] = cur
 			curLoop = -1
 			lastSpec = nil
-		case "requires", "ensures", "invariant":
+		case "requires", "ensures", "invariant", "assume_ensures":
 			if cur == nil {
 				return fail("%s outside func", s.kw)
 			}
@@ -174,6 +186,9 @@ func (r *Registry) loadContractFile(path string, pkgPath string) error {
 			case "requires":
 				cur.Requires = append(cur.Requires, cl)
 			case "ensures":
+				cur.Ensures = append(cur.Ensures, cl)
+			case "assume_ensures":
+				cl.Assumed = true
 				cur.Ensures = append(cur.Ensures, cl)
 			case "invariant":
 				if curLoop < 0 {
@@ -272,6 +287,17 @@ func (r *Registry) loadContractFile(path string, pkgPath string) error {
 				return fail("%v", err)
 			}
 			r.Axioms = append(r.Axioms, &Axiom{Name: strings.TrimSpace(name), Pkg: pkgPath, Expr: e, Text: strings.TrimSpace(text), Src: s.src})
+			cur = nil
+		case "mapvalues":
+			tt, text, ok := strings.Cut(s.rest, ":")
+			if !ok {
+				return fail("mapvalues needs 'maptype: expr over k and v'")
+			}
+			e, err := parseCExpr(text)
+			if err != nil {
+				return fail("%v", err)
+			}
+			r.MapInvs = append(r.MapInvs, &MapInv{TypeText: strings.TrimSpace(tt), Pkg: pkgPath, Expr: e, Text: strings.TrimSpace(text), Src: s.src})
 			cur = nil
 		case "ghost":
 			m := regexp.MustCompile(`^(\w+)\s*:\s*(.+?)\s*->\s*(.+)$`).FindStringSubmatch(s.rest)
